@@ -155,6 +155,9 @@ func (sig *Signature[S]) UnmarshalCBOR(data []byte) error {
 	if err != nil {
 		return errs.Wrap(err).WithMessage("failed to unmarshal ECDSA signature")
 	}
+	if dto == nil {
+		return signatures.ErrInvalidArgument.WithMessage("Signature DTO is nil")
+	}
 	sig2, err := NewSignature(dto.R, dto.S, dto.V)
 	if err != nil {
 		return errs.Wrap(err).WithMessage("failed to create ECDSA signature from deserialized data")
